@@ -476,10 +476,25 @@ fn nontrivial_c11(c: &Case, r: &RunResult) -> bool {
     c.meta.role() == "ovf" && r.outcome.is_ok()
 }
 
+/// C01 observable: the outcome kind only.
+fn proj_kind(o: &Outcome) -> Outcome {
+    match o {
+        Outcome::Str(_) | Outcome::Lines(_) => Outcome::Str(String::new()),
+        other => other.clone(),
+    }
+}
+/// C02 observable: the display width of every line.
+fn proj_widths(o: &Outcome) -> Outcome {
+    match out_lines(o) {
+        Some(ls) => Outcome::Str(ls.iter().map(|l| str_width(l).to_string()).collect::<Vec<_>>().join(",")),
+        None => o.clone(),
+    }
+}
+
 pub fn prop_def2(id: &str) -> Option<PropDef> {
     match id {
-        "C01" => Some(PropDef { id: "C01", generate: gen_c01, check: check_c01, nontrivial: nontrivial_c01, project: ident, deadline_ms: 60000, check_model: None }),
-        "C02" => Some(PropDef { id: "C02", generate: gen_c02, check: check_c02, nontrivial: nontrivial_c02, project: ident, deadline_ms: 20000, check_model: None }),
+        "C01" => Some(PropDef { id: "C01", generate: gen_c01, check: check_c01, nontrivial: nontrivial_c01, project: proj_kind, deadline_ms: 60000, check_model: None }),
+        "C02" => Some(PropDef { id: "C02", generate: gen_c02, check: check_c02, nontrivial: nontrivial_c02, project: proj_widths, deadline_ms: 20000, check_model: None }),
         "C10" => Some(PropDef { id: "C10", generate: gen_c10, check: check_c10, nontrivial: nontrivial_c10, project: ident, deadline_ms: 20000, check_model: None }),
         "C11" => Some(PropDef { id: "C11", generate: gen_c11, check: check_c11, nontrivial: nontrivial_c11, project: ident, deadline_ms: 20000, check_model: None }),
         other => crate::props3::prop_def3(other),
